@@ -53,7 +53,8 @@ pub fn gen_slts_case(g: &mut Gen, _tier: Tier, allow_dummy: bool) -> TrainCase {
         }
     }
     let mode = if g.bool(0.6) { 1 } else { 2 };
-    TrainCase { links, train, mode, trace: vec![], save_interval: Some(1), simulation_days: None, init_speed_zero: false }
+    let also_real_walk = g.bool(0.06);
+    TrainCase { links, train, mode, trace: vec![], save_interval: Some(1), simulation_days: None, init_speed_zero: false, also_real_walk }
 }
 
 pub fn speed_case_of(case: &TrainCase) -> SpeedCase {
@@ -217,6 +218,24 @@ pub fn check_c03_run_opts(case: &TrainCase, run: &TrainRun, cx: &mut Ctx, timed:
             cx.fail(tag("err|empty-error-text"), "run returned an error without text");
         }
     }
+    // the chain schedules drive the sim through a bounded restatement of walk()'s loop; a
+    // sample of them is also run by the code's own walk() in a child process, which must come
+    // to the same outcome and the same final state, bit for bit
+    if case.also_real_walk && !timed && !run.result.as_ref().err().map(|e| e.contains(STALL_MSG) || e.contains(SLOW_MSG)).unwrap_or(false) {
+        if let Some(fs) = &run.final_state {
+            let mine = format!("{} {}", if run.panic.is_some() { "panic" } else if run.result.is_ok() { "ok" } else { "err" }, final_summary(fs));
+            match probe_real_walk(case, 30) {
+                Some(r) => {
+                    cx.label("also_run_by_the_code's_own_walk");
+                    let theirs: String = r.trim_start_matches("RETURNED ").split(' ').take(5).collect::<Vec<_>>().join(" ");
+                    if theirs != mine {
+                        cx.fail(tag("walk|own-walk-differs-from-its-restated-loop"), format!("walk() in a child process: {theirs}; restated loop here: {mine} ({} saved steps)", st.len()));
+                    }
+                }
+                None => cx.fail(tag("hang|walk-does-not-return-where-its-restated-loop-does"), format!("the restated loop ended after {} saved steps ({mine}); the code's own walk() did not return within 30 s", st.len())),
+            }
+        }
+    }
     let mut braked = false;
     for k in 0..st.len() {
         let s = &st[k];
@@ -343,7 +362,7 @@ fn check_timed(dc: &crate::props::corridor::DispatchCase, cx: &mut Ctx) {
         let spec = &dc.trains[ti].train;
         let route: Vec<usize> = path.iter().map(|p| p.link_idx.idx()).collect();
         let links = route_specs(&dc.net, &b.corridor, &route, spec.train_type);
-        let tc = TrainCase { links, train: spec.clone(), mode: 3, trace: vec![], save_interval: Some(1), simulation_days: None, init_speed_zero: false };
+        let tc = TrainCase { links, train: spec.clone(), mode: 3, trace: vec![], save_interval: Some(1), simulation_days: None, init_speed_zero: false, also_real_walk: false };
         let mut sim = b.slts[ti].clone();
         sim.set_save_interval(Some(1));
         let mut run = TrainRun::empty_pub();
